@@ -387,6 +387,36 @@ class C19(Prop):
             for res in table_resources(table):
                 for i in range(len(filters)):
                     cases.append({"kind": "table", "table": table, "resource": res, "filter": i})
+        # -- text-level lexer + grammar model vs. the real parser -----------------------------------------
+        texts: List[str] = []
+        R = Real.R()
+        for table, (fn, _, filters) in TABLES.items():
+            for res in table_resources(table):
+                for f in filters:
+                    try:
+                        texts.append(call_quiet(getattr(R, fn), res, dict(f)))
+                    except Exception:
+                        pass
+        texts += list(dict.fromkeys(self.table_entries()))
+        seen = set()
+        for t in texts:
+            if t not in seen:
+                seen.add(t)
+                cases.append({"kind": "cel", "text": t})
+        pert = "()[]{}.,\"' !=<>&|x1"
+        for _ in range(400 if quick else 8000):
+            t = rng.choice(texts)
+            i = rng.randrange(len(t) + 1)
+            how = rng.random()
+            if how < 0.4 and t:
+                t2 = t[:i] + t[i + 1:]
+            elif how < 0.8:
+                t2 = t[:i] + rng.choice(pert) + t[i:]
+            else:
+                t2 = t[:i] + rng.choice(pert) + t[i + 1:]
+            if t2 not in seen:
+                seen.add(t2)
+                cases.append({"kind": "cel", "text": t2})
         # -- value_from ----------------------------------------------------------------------------------
         for _ in range(40 if quick else 1500):
             c = {"kind": "vfrom", "url": "s3://b/" + rand_str(rng, 5), "op": rng.choice(["in", "ni", "not-in", "intersect", None])}
@@ -396,6 +426,24 @@ class C19(Prop):
                 c["expr"] = rng.choice(["a.b", "a[?b==`x\\y`].c", "it's", "x{account_id}", "a\nb"] + [rand_str(rng, 6)])
             cases.append(c)
         return cases
+
+    def table_entries(self) -> List[str]:
+        """the bare entries of the six tables, read from the source"""
+        src = (REPO / "src/xlate/c7n_to_cel.py").read_text()
+        out: List[str] = []
+        wanted = {(fn, var) for fn, var, _ in TABLES.values()}
+        for cls in ast.parse(src).body:
+            if isinstance(cls, ast.ClassDef) and cls.name == "C7N_Rewriter":
+                for f in cls.body:
+                    if isinstance(f, ast.FunctionDef):
+                        for st in ast.walk(f):
+                            if isinstance(st, ast.Assign) and isinstance(st.targets[0], ast.Name) \
+                                    and (f.name, st.targets[0].id) in wanted and isinstance(st.value, ast.Dict):
+                                try:
+                                    out += [v for v in ast.literal_eval(st.value).values() if isinstance(v, str)]
+                                except Exception:
+                                    pass
+        return out
 
     def clause_cases(self, rng: random.Random, quick: bool) -> List[Dict[str, Any]]:
         out: List[Dict[str, Any]] = []
@@ -584,6 +632,8 @@ class C19(Prop):
                 return ("badmacro " if prob else "ok ") + enc(t)
             if k == "vfrom":
                 return self.impl_vfrom(c)
+            if k == "cel":
+                return "cel" if Real.parse(c["text"]) is not None else "notcel"
         except Exception as ex:  # anything else escaping the translator is an outcome, not a harness failure
             return "EXC " + type(ex).__name__
         return "bad-kind"
@@ -707,6 +757,8 @@ class C19(Prop):
             return f"key {enc('resource')} {enc(key)}"
         if k == "dur":
             return f"{c['unit']} {c['n']}"
+        if k == "cel":
+            return f"cel {enc(c['text'])}" if lean_ok_str(c["text"]) else None
         if k == "emit":
             if c["op"] is None:
                 return None
@@ -778,6 +830,8 @@ class C19(Prop):
             return f"{text} {rest}"
         if k == "emit":
             return m
+        if k == "cel":
+            return impl if m == "nolex" else m     # nolex: a lexical error, or a token kind the lexer model leaves out
         if k == "clause":
             return m if m in ("true", "false") else impl
         return impl
@@ -861,7 +915,8 @@ class C19(Prop):
             want = [("false" if neg else "true")] * (len(outs) - 1) + [("true" if neg else "false")]
             if outs != want:
                 return (f"value_from {{url: {c['url']!r}, format: {c.get('format')!r}, expr: {c.get('expr')!r}}} -> "
-                        f"{dec(text)!r}: the literals do not evaluate back to the policy strings (probes {outs}, expected {want})")
+                        f"{dec(text)!r}: membership of the policy strings in the fetched list is not what op {c['op'] or 'in'} names "
+                        f"(literal round trip or negation/orientation of the template; probes {outs}, expected {want})")
             return None
         return None
 
